@@ -8,59 +8,160 @@ package metadata
 
 import (
 	"fmt"
+	"reflect"
 	"sort"
 	"strings"
 
-	"google.golang.org/protobuf/encoding/prototext"
+	"google.golang.org/protobuf/proto"
+
+	metadatapb "github.com/KafScale/platform/pkg/gen/metadata"
 )
 
-func VerifSnapshot(s *InMemoryStore) string {
+// VerifSnapshot dumps EVERY field of the store (reflection over the struct, so a table
+// added later is included automatically; only the mutex is skipped), following pointers,
+// with map entries sorted. Unexported fields are read through reflect's kind accessors.
+func VerifSnapshot(s *InMemoryStore) string { return verifSnapshot(s, false) }
+
+// VerifSnapshotStable is the same without TopicConfig.CreatedAt (wall-clock text), for
+// comparing two different store instances.
+func VerifSnapshotStable(s *InMemoryStore) string { return verifSnapshot(s, true) }
+
+func verifSnapshot(s *InMemoryStore, skipCreatedAt bool) string {
 	s.mu.RLock()
 	defer s.mu.RUnlock()
-	var lines []string
-	add := func(f string, a ...any) { lines = append(lines, fmt.Sprintf(f, a...)) }
-	add("controller=%d", s.state.ControllerID)
-	if s.state.ClusterName != nil {
-		add("clusterName=%q", *s.state.ClusterName)
-	}
-	if s.state.ClusterID != nil {
-		add("clusterID=%q", *s.state.ClusterID)
-	}
-	for i, b := range s.state.Brokers {
-		add("broker[%d]=%+v", i, b)
-	}
-	for i, t := range s.state.Topics {
-		add("topic[%d]=%q err=%d id=%x internal=%v auth=%d", i, *t.Topic, t.ErrorCode, t.TopicID, t.IsInternal, t.AuthorizedOperations)
-		for j, p := range t.Partitions {
-			add("topic[%d].part[%d]=%+v", i, j, p)
+	var sb strings.Builder
+	v := reflect.ValueOf(s).Elem()
+	for i := 0; i < v.NumField(); i++ {
+		name := v.Type().Field(i).Name
+		if name == "mu" {
+			continue
 		}
+		sb.WriteString(name + " = ")
+		verifDump(&sb, v.Field(i), skipCreatedAt, 0)
+		sb.WriteString("\n")
 	}
-	var m []string
-	for k, v := range s.offsets {
-		m = append(m, fmt.Sprintf("offset %#v=%d", k, v))
-	}
-	for k, v := range s.consumerOffsets {
-		m = append(m, fmt.Sprintf("coff %#v=%d", k, v))
-	}
-	for k, v := range s.consumerMeta {
-		m = append(m, fmt.Sprintf("cmeta %#v=%q", k, v))
-	}
-	opt := prototext.MarshalOptions{Multiline: false}
-	for k, v := range s.consumerGroups {
-		b, _ := opt.Marshal(v)
-		m = append(m, fmt.Sprintf("group %q=%s members=%d", k, canonText(string(b)), len(v.Members)))
-	}
-	for k, v := range s.topicConfigs {
-		b, _ := opt.Marshal(v)
-		m = append(m, fmt.Sprintf("cfg %q=%s", k, canonText(string(b))))
-	}
-	sort.Strings(m)
-	return strings.Join(append(lines, m...), "\n")
+	return sb.String()
 }
 
-// prototext inserts random extra spaces to discourage byte comparison; drop them
-func canonText(s string) string {
-	return strings.Join(strings.Fields(s), " ")
+func verifDump(sb *strings.Builder, v reflect.Value, skipCreatedAt bool, depth int) {
+	if depth > 12 {
+		sb.WriteString("<deep>")
+		return
+	}
+	switch v.Kind() {
+	case reflect.Ptr, reflect.Interface:
+		if v.IsNil() {
+			sb.WriteString("nil")
+			return
+		}
+		sb.WriteString("&")
+		verifDump(sb, v.Elem(), skipCreatedAt, depth+1)
+	case reflect.Struct:
+		sb.WriteString(v.Type().Name() + "{")
+		for i := 0; i < v.NumField(); i++ {
+			name := v.Type().Field(i).Name
+			// protobuf bookkeeping, not data
+			if name == "state" || name == "sizeCache" || name == "unknownFields" || name == "mu" {
+				continue
+			}
+			if skipCreatedAt && name == "CreatedAt" {
+				continue
+			}
+			sb.WriteString(name + ":")
+			verifDump(sb, v.Field(i), skipCreatedAt, depth+1)
+			sb.WriteString(" ")
+		}
+		sb.WriteString("}")
+	case reflect.Map:
+		if v.IsNil() {
+			sb.WriteString("map(nil)")
+			return
+		}
+		var ent []string
+		it := v.MapRange()
+		for it.Next() {
+			var e strings.Builder
+			verifDump(&e, it.Key(), skipCreatedAt, depth+1)
+			e.WriteString("=>")
+			verifDump(&e, it.Value(), skipCreatedAt, depth+1)
+			ent = append(ent, e.String())
+		}
+		sort.Strings(ent)
+		sb.WriteString("map[" + strings.Join(ent, "; ") + "]")
+	case reflect.Slice, reflect.Array:
+		if v.Kind() == reflect.Slice && v.IsNil() {
+			sb.WriteString("[](nil)")
+			return
+		}
+		sb.WriteString("[")
+		for i := 0; i < v.Len(); i++ {
+			verifDump(sb, v.Index(i), skipCreatedAt, depth+1)
+			sb.WriteString(", ")
+		}
+		sb.WriteString("]")
+	case reflect.String:
+		fmt.Fprintf(sb, "%q", v.String())
+	case reflect.Bool:
+		fmt.Fprintf(sb, "%v", v.Bool())
+	case reflect.Int, reflect.Int8, reflect.Int16, reflect.Int32, reflect.Int64:
+		fmt.Fprintf(sb, "%d", v.Int())
+	case reflect.Uint, reflect.Uint8, reflect.Uint16, reflect.Uint32, reflect.Uint64, reflect.Uintptr:
+		fmt.Fprintf(sb, "%d", v.Uint())
+	case reflect.Float32, reflect.Float64:
+		fmt.Fprintf(sb, "%v", v.Float())
+	default:
+		sb.WriteString("<" + v.Kind().String() + ">")
+	}
+}
+
+// VerifState is the store's internal state projected to the shape of the Coq model
+// (model/MetaStore.v inmem): every table, entries in no particular order.
+type VerifOffset struct {
+	Topic string
+	Part  int32
+	Next  int64
+}
+type VerifCoff struct {
+	Group, Topic string
+	Part         int32
+	Off          int64
+	Meta         string
+}
+type VerifTopic struct {
+	Name  string
+	Parts int
+}
+type VerifState struct {
+	Brokers int
+	Topics  []VerifTopic
+	Offsets []VerifOffset
+	Coffs   []VerifCoff
+	Groups  []*metadatapb.ConsumerGroup
+	CfgKeys []string
+	Cfgs    []*metadatapb.TopicConfig
+}
+
+func VerifModelState(s *InMemoryStore) VerifState {
+	s.mu.RLock()
+	defer s.mu.RUnlock()
+	st := VerifState{Brokers: len(s.state.Brokers)}
+	for _, t := range s.state.Topics {
+		st.Topics = append(st.Topics, VerifTopic{*t.Topic, len(t.Partitions)})
+	}
+	for k, v := range s.offsets {
+		st.Offsets = append(st.Offsets, VerifOffset{k.topic, k.partition, v})
+	}
+	for k, v := range s.consumerOffsets {
+		st.Coffs = append(st.Coffs, VerifCoff{k.group, k.topic, k.partition, v, s.consumerMeta[k]})
+	}
+	for _, g := range s.consumerGroups {
+		st.Groups = append(st.Groups, proto.Clone(g).(*metadatapb.ConsumerGroup))
+	}
+	for k, c := range s.topicConfigs {
+		st.CfgKeys = append(st.CfgKeys, k)
+		st.Cfgs = append(st.Cfgs, proto.Clone(c).(*metadatapb.TopicConfig))
+	}
+	return st
 }
 
 // Unexported key builders, for the C22 harness in pkg/storage.
